@@ -95,7 +95,15 @@ def _rest(ctx, pw, selfp):
                 continue
             facts = {repr(c): t for c, t in pe.path_facts(p)}
             ws = [e for e in p.events if e["kind"] == "write" and e["root"] == SELF and e["how"] != "borrow"]
-            if fv(facts, zero) is True:
+            z_ = fv(facts, zero)
+            if z_ is None:
+                # `if w > 0. { insert }` after the validation `w >= 0.`: not(0 < w) and 0 <= w is w == 0
+                lt_, le_ = fv(facts, mk("Lt", const(0.0), w)), fv(facts, mk("Le", const(0.0), w))
+                if lt_ is False and le_ is True:
+                    z_ = True
+                elif lt_ is True:
+                    z_ = False
+            if z_ is True:
                 seen_zero = True
                 if ws or any(e["kind"] == "call" and e["name"] == "borrow_mut" for e in p.events):
                     probs.append("zero-weight insert touches the digest")
@@ -211,10 +219,12 @@ def conservation(ctx, mg):
         probs.append("the fuse loop does not run over buffer.drain(1..) / buffer.into_iter().skip(1): %s" % (fmt(it)[:160] if it else "?"))
     else:
         X1 = it[1] if took_first else it[2][0]
-        okx = X1[0] == "call" and X1[1].endswith("collect") and X1[2][0][0] == "map"
+        # the projected buffer: materialised (`.map(|t| t.1).collect()`) or a lazy iterator over the sorted pairs (`.into_iter().map(|t| t.1)`)
+        M1 = X1[2][0] if (X1[0] == "call" and X1[1].endswith("collect") and X1[2][0][0] == "map") else (X1 if X1[0] == "map" else None)
+        okx = M1 is not None
         if okx:
-            src = X1[2][0][1]
-            proj = elem_of(("map", ("dummy",), X1[2][0][2]))
+            src = M1[1]
+            proj = elem_of(("map", ("dummy",), M1[2]))
             okx = proj == ("tfield", ("elem", ("dummy",)), 1)
             if okx:
                 # the first buffer is consumed either by drain(..) or by into_iter()
@@ -224,6 +234,13 @@ def conservation(ctx, mg):
                     pair = elem_of(("map", ("dummy",), X0[2][0][2]))
                     e = ("elem", ("dummy",))
                     okx = pair[0] == "tuple" and len(pair[1]) == 2 and pair[1][1] == e
+        if not okx and X1[0] == "chain" and {repr(X1[1]), repr(X1[2])} == {repr(("field", selfp, "centroids")), repr(("field", selfp, "backlog"))}:
+            # the centroids themselves are sorted (no keyed copy): `let mut v = mem::take(&mut self.centroids); v.append(&mut self.backlog)`
+            # — both sources must be emptied by that (take / being the source of append / drain), or their items would be counted twice
+            from .common import all_writes
+            emptied = {self_field(w_) for w_ in all_writes(ctx, mg) if w_["root"] == SELF and not w_.get("via")
+                       and (w_.get("name") in ("take", "drain") or (w_.get("name") == "append" and w_.get("argi") == 1))}
+            okx = {"centroids", "backlog"} <= emptied
         if not okx:
             probs.append("the sort buffers are not (mean, c) over centroids.drain(..) ++ backlog.drain(..) projected back to c: %s" % fmt(X1)[:200])
     # current
